@@ -498,7 +498,7 @@ class Side:
 		value = self.values.value(type_name, depth=2)
 		return w_codec(value['s'], value), value, 'struct:object'
 
-	def gen_field(self, field, top, str_ok=False):
+	def gen_field(self, field, top, str_ok=False, full=False):
 		# pylint: disable=too-many-return-statements
 		rng = self.rng
 		kind = field['kind']
@@ -514,7 +514,7 @@ class Side:
 			return w_bytes(data), {'b': data.hex().upper()}, 'bytes-array:bytes'
 		if 'ref' == kind['k']:
 			return self.gen_type(kind['ty'], str_ok=str_ok)
-		length = rng.choice([0, 1, 1, 2, 2, 3, 5, 8])
+		length = rng.choice([3, 5, 8]) if full else rng.choice([0, 1, 1, 2, 2, 3, 5, 8])
 		items = []
 		expected = []
 		seen = set()
@@ -534,7 +534,7 @@ class Side:
 		kind = field['kind']
 		return 'ref' == kind['k'] and 'struct' == self.net.types[kind['ty']]['k'] and self.net.types[kind['ty']]['abstract']
 
-	def gen_struct(self, type_name, top, str_ok=False, forms=None):
+	def gen_struct(self, type_name, top, str_ok=False, forms=None, full=False):
 		"""A dict for struct `type_name`: (descriptor wire, expected member state). Top level: `type` is added by the caller."""
 		# pylint: disable=too-many-locals,too-many-branches
 		rng = self.rng
@@ -546,7 +546,7 @@ class Side:
 		pairs = []
 
 		def describe(field, force_str_ok=False):
-			wire, value, form = self.gen_field(field, top, str_ok=force_str_ok or (str_ok and 'message' == field['name']))
+			wire, value, form = self.gen_field(field, top, str_ok=force_str_ok or (str_ok and 'message' == field['name']), full=full)
 			if top and 'symbol' == self.name and 'name' == field['name'] and 'NamespaceRegistration' in type_name and rng.random() < 0.9:
 				# the name of a namespace is text (create decodes it to derive the id)
 				text = ''.join(rng.choice('abcxyz019_-') if rng.random() < 0.9 else rng.choice(['é', 'Z', '中', ' ', '.']) for _ in range(rng.choice([0, 1, 3, 8, 20, 64])))
@@ -561,7 +561,7 @@ class Side:
 		plain = [field for field in fields if field['cond'] is None and field['name'] not in skip]
 		for field in plain:
 			# a member of abstract type has no usable default (an instance of the abstract class): always described
-			if rng.random() < 0.7 or self.is_abstract_ref(field):
+			if full or rng.random() < 0.7 or self.is_abstract_ref(field):
 				describe(field)
 		for field in fields:
 			cond = field['cond']
@@ -571,9 +571,9 @@ class Side:
 			if discriminant['kind']['k'] in codec.CARRYING:
 				actual = int(expected[cond['field']])
 				active = (cond['value'] == actual) if 'eq' == cond['op'] else (cond['value'] != actual)
-				if active and (expected[field['name']] is None or rng.random() < 0.7):
+				if active and (full or expected[field['name']] is None or rng.random() < 0.7):
 					describe(field)
-			elif rng.random() < 0.6:
+			elif full or rng.random() < 0.6:
 				describe(field, force_str_ok=top and 'nem' == self.name and 'message' == field['name'] and type_name.startswith('TransferTransaction'))
 		rng.shuffle(pairs)
 		return w_dict(pairs), {'s': type_name, 'f': [[field['name'], expected[field['name']]] for field in fields]}
@@ -657,19 +657,19 @@ class Side:
 		info = dict(case, model=answer[:600])
 		if answer.startswith('err '):
 			if 'ok' == status:
-				ctx.fail('corr', f'{self.label(case)}: the implementation accepts a descriptor the model rejects ({answer})', info)
+				self.corr_fail(f'{self.label(case)}: the implementation accepts a descriptor the model rejects ({answer})', info)
 			return
 		if not answer.startswith('ok '):
-			ctx.fail('corr', f'{self.label(case)}: driver answer {answer[:200]}', info)
+			self.corr_fail(f'{self.label(case)}: driver answer {answer[:200]}', info)
 			return
 		if 'ok' != status:
-			ctx.fail('corr', f'{self.label(case)}: the model accepts a descriptor the implementation rejects ({transaction})', dict(info, implementation=transaction))
+			self.corr_fail(f'{self.label(case)}: the model accepts a descriptor the implementation rejects ({transaction})', dict(info, implementation=transaction))
 			return
 		_, value_text, encoded = answer.split(' ')
 		model_state = json.loads(value_text)
 		impl_state = self.state_wire(type(transaction).__name__, transaction)
 		if model_state != impl_state:
-			ctx.fail('corr', f'{self.label(case)}: member state differs between model and implementation: {first_difference(model_state, impl_state)}', dict(
+			self.corr_fail(f'{self.label(case)}: member state differs between model and implementation: {first_difference(model_state, impl_state)}', dict(
 				info, implementation=impl_state))
 			return
 		if skip_bytes:
@@ -680,9 +680,16 @@ class Side:
 		if encoded.startswith('ok:'):
 			expected = bytes.fromhex('' if '-' == encoded[3:] else encoded[3:])
 			if 'ok' != ser_status or data != expected:
-				ctx.fail('corr', f'{self.label(case)}: model encoding differs from serialize() ({ser_status})', dict(info, implementation=data.hex().upper() if data else data))
+				self.corr_fail(f'{self.label(case)}: model encoding differs from serialize() ({ser_status})', dict(info, implementation=data.hex().upper() if data else data))
 		elif 'ok' == ser_status:
-			ctx.fail('corr', f'{self.label(case)}: serialize() succeeds where the model encoder fails ({encoded})', dict(info, implementation=data.hex().upper()))
+			self.corr_fail(f'{self.label(case)}: serialize() succeeds where the model encoder fails ({encoded})', dict(info, implementation=data.hex().upper()))
+
+	def corr_fail(self, what, case):
+		"""a few correspondence failures are enough; the failure slots are kept for failures of the property itself"""
+		if self.ctx.counters.get('fail:corr', 0) < 8:
+			self.ctx.fail('corr', what, case)
+		else:
+			self.ctx.count('fail:corr')
 
 	def label(self, case):
 		return f'{case["network"]}/{case["network_name"]} {case["entry"]}(autosort={case["autosort"]}) {show(case["descriptor"])[:300]}'
@@ -694,11 +701,11 @@ class Side:
 
 	# region the valid stream
 
-	def gen_valid(self, type_name, friendly, embedded):
+	def gen_valid(self, type_name, friendly, embedded, full=False):
 		"""-> (descriptor wire, expected state before sorting / id autofill, forms)"""
 		rng = self.rng
 		forms = []
-		wire, expected = self.gen_struct(type_name, top=True, forms=forms)
+		wire, expected = self.gen_struct(type_name, top=True, forms=forms, full=full)
 		pairs = dict_pairs(wire)
 		members = dict((name, value) for name, value in expected['f'])
 		typedef = self.net.types[type_name]
@@ -1135,8 +1142,8 @@ def first_difference(left, right, path=''):
 
 def run(ctx):
 	# pylint: disable=too-many-locals
-	per_combo = ctx.scale(5, 60)
-	corrupt_from = ctx.scale(2, 12)
+	per_combo = ctx.scale(5, 400)
+	corrupt_from = ctx.scale(2, 60)
 	sides = []
 	for index, name in enumerate(('symbol', 'nem')):
 		quick_choice = ['testnet', 'mainnet'][(ctx.seed + index) % 2]
@@ -1154,8 +1161,9 @@ def run(ctx):
 			for type_name, friendly in side.transaction_names(embedded):
 				for autosort in (True, False):
 					valid = []
-					for _ in range(per_combo):
-						wire, expected, forms = side.gen_valid(type_name, friendly, embedded)
+					for index in range(per_combo):
+						# the first descriptor of every combination mentions every member, with arrays of three or more elements
+						wire, expected, forms = side.gen_valid(type_name, friendly, embedded, full=0 == index)
 						valid.append((wire, expected, forms))
 					malformed = []
 					for wire, _, _ in valid[:corrupt_from]:
